@@ -61,6 +61,12 @@ SPEC1 = {
         "import app.models as m\nfrom app.util import helper as h\nimport extlib\n\nacc = m.Account('me')\n"
         "print(acc.deposit(5, note='n'), m.total([acc]), h(3, y=1), extlib.shared(2), m.cache)\n"),
     "ignored_dir/models.py": "class Account:\n    balance = 0\n\ndef helper(x):\n    return x\n",
+    # ignored through a `//` pattern (zero or more folders): real users of the project's names, directly under
+    # the folder and two levels below it
+    "gen/top_pb2.py": ("from app.util import helper, LIMIT\nfrom app.models import Account, total\n\n"
+                       "print(helper(LIMIT), total([Account('g')]))\n"),
+    "gen/deep/er/low_pb2.py": ("from app.util import helper, LIMIT\nfrom app.models import Account, total\n\n"
+                               "print(helper(LIMIT), total([Account('g')]))\n"),
 }
 EXT = {"extlib.py": "def shared(x):\n    return x + 1\n\n\nclass Base:\n    def __init__(self, owner):\n        self.owner = owner\n"}
 
@@ -107,7 +113,7 @@ def _setup(tmp, files, ext):
 def _project(root, sib):
     from rope.base.project import Project
     return Project(root, ropefolder=None, automatic_soa=False, save_history=False, save_objectdb=False,
-                   python_path=[sib], ignored_resources=["ignored_dir", "*.pyc"])
+                   python_path=[sib], ignored_resources=["ignored_dir", "*.pyc", "gen//*_pb2.py"])
 
 
 def _requests(kind, project, path, offset, src):
@@ -258,7 +264,7 @@ def run_case(spec):
                     rp = os.path.realpath(p)
                     if not rp.startswith(os.path.realpath(root) + os.sep):
                         bad = ("outside-project" if not rp.startswith(os.path.realpath(sib)) else "out-of-project-library-modified", rp)
-                    elif "/ignored_dir" in rp:
+                    elif "/ignored_dir" in rp or rp.endswith("_pb2.py"):
                         bad = ("ignored-resource-modified", rp)
                     elif rp not in real_announced and not any(rp.startswith(a + os.sep) or a.startswith(rp + os.sep) for a in real_announced):
                         bad = ("unannounced-resource-touched", rp)
